@@ -22,6 +22,7 @@ type seed struct {
 }
 
 var seeds = []seed{
+	{"the in-place lazy union of ParOr asks for a read-only container", "A2.32", "parallel.go", "getFastContainerAtIndex(idx1, true)", "getFastContainerAtIndex(idx1, false)", "lazyIOrOnRange"},
 	{"32-bit BSI Increment forgets the existence bitmap", "A1.bsi", "BitSliceIndexing/bsi.go", "\tb.addDigit(foundSet, 0)\n\tb.eBM.Or(foundSet)\n", "\tb.addDigit(foundSet, 0)\n", "Increment|existence bitmap"},
 	{"64-bit Flip stores a fresh bucket without testing it", "F3.64", "roaring64/roaring64.go", "\t\t\tc := roaring.NewBitmap()\n\t\t\tc.Flip(containerStart, containerLast)\n\t\t\tif !c.IsEmpty() {\n\t\t\t\trb.highlowcontainer.insertNewKeyValueAt(-i-1, uint32(hb), c)\n\t\t\t}\n", "\t\t\tc := roaring.NewBitmap()\n\t\t\tc.Flip(containerStart, containerLast)\n\t\t\trb.highlowcontainer.insertNewKeyValueAt(-i-1, uint32(hb), c)\n", "(*roaring64.Bitmap).Flip|may-empty"},
 	{"array addOffset carves both halves out of one allocation", "A9", "arraycontainer.go", "\t\tlow = &arrayContainer{}\n\t}\n\tif y := uint32(ac.content[len(ac.content)-1]) + uint32(x); highbits(y) > 0 {\n\t\t// Some elements will fall into high part, allocate a container.\n\t\t// Checking the last one is enough because they are ordered.\n\t\thigh = &arrayContainer{}\n", "\t\tlow = &arrayContainer{}\n\t}\n\tif y := uint32(ac.content[len(ac.content)-1]) + uint32(x); highbits(y) > 0 {\n\t\thigh = &arrayContainer{}\n\t}\n\tif low != nil && high != nil {\n\t\tscratch := make([]uint16, len(ac.content))\n\t\tlow.content = scratch[:0]\n\t\thigh.content = scratch[len(scratch)/2:][:0]\n", "addOffset|payload cut"},
